@@ -225,6 +225,7 @@ type VGroup struct {
 	Events    []string          `json:"events,omitempty"`
 	Resumes   []ResumeEv        `json:"resumes,omitempty"`
 	Spin      bool              `json:"spin,omitempty"`
+	UsesRand  bool              `json:"uses_rand,omitempty"`
 	Now       string            `json:"now,omitempty"`
 }
 type FuncInfo struct {
@@ -473,11 +474,11 @@ func (e *Engine) explore(fn *ssa.Function) *Result {
 						g := groups[sig]
 						if g == nil {
 							g = &VGroup{ID: v.ID, Site: v.Site, Detail: v.Detail, Decisions: append([]int(nil), w.taken...), Model: v.Model, AltModels: v.AltModels,
-								Chooses: w.chooseLog, Schedule: w.sched, Events: w.events, Now: v.Now, Resumes: w.resumes, Spin: w.yieldUnderLock}
+								Chooses: w.chooseLog, Schedule: w.sched, Events: w.events, Now: v.Now, Resumes: w.resumes, Spin: w.yieldUnderLock, UsesRand: w.usesRand}
 							groups[sig] = g
 						} else if len(w.taken) < len(g.Decisions) {
 							// prefer the shortest counterexample
-							g.Decisions, g.Model, g.Chooses, g.Schedule, g.Events, g.Detail, g.Now, g.Resumes, g.Spin = append([]int(nil), w.taken...), v.Model, w.chooseLog, w.sched, w.events, v.Detail, v.Now, w.resumes, w.yieldUnderLock
+							g.Decisions, g.Model, g.Chooses, g.Schedule, g.Events, g.Detail, g.Now, g.Resumes, g.Spin, g.UsesRand = append([]int(nil), w.taken...), v.Model, w.chooseLog, w.sched, w.events, v.Detail, v.Now, w.resumes, w.yieldUnderLock, w.usesRand
 						}
 						g.Count++
 					}
